@@ -91,10 +91,7 @@ class GW5APLL(LiteXModule):
                             okay = True
                             config = {}
                             for n, (clk, f, p, m) in self.clkouts.items():
-                                odiv = round(vco_freq/f)
-                                if odiv < 1 or odiv > 128:
-                                    okay = False
-                                    continue
+                                odiv = min(max(round(vco_freq/f), 1), 128)
                                 out_freq = vco_freq/odiv
                                 diff = abs(out_freq - f) / f
                                 pe = round(p * odiv / 360)
